@@ -45,7 +45,25 @@ def _concave_tau1(sc):
     return None
 
 
-PREDICATES = {"F13": _no_supplier, "F24": _concave_tau1}
+def _unit_gain_overprod(sc):
+    """F36: capacity-weighted orders, no relaxation of the inventory constraint (base class or psi = 1) and an overproduction rule
+    whose gain (alpha_max - alpha_base) x step / alpha_tau reaches 1"""
+    c = sc["model"]
+    try:
+        gain = (float(c["alpha_max"]) - float(c["alpha_base"])) * float(c.get("dt", 1)) / float(c["alpha_tau"])
+    except Exception:
+        return None
+    psi = c.get("psi", 0.8)
+    try:
+        psi1 = float(str(psi).replace("_", ".")) >= 1.0
+    except Exception:
+        psi1 = False
+    if c.get("order_type") == "alt" and (c.get("class") == "base" or psi1) and gain >= 1.0:
+        return f"alt orders, no psi relaxation, overproduction gain {gain:g} >= 1"
+    return None
+
+
+PREDICATES = {"F13": _no_supplier, "F24": _concave_tau1, "F36": _unit_gain_overprod}
 
 
 def match_scenario(pid, sc):
